@@ -3,8 +3,9 @@
 revert, and report which checks detect it.  /repo must be clean.  usage: run_seeds.py [ID-prefix ...]"""
 import sys, os, json, subprocess, glob
 ROOT = os.path.dirname(os.path.dirname(os.path.abspath(__file__)))
+REPO = os.environ.get('VERIF_REPO', '/repo')
 ENV = dict(os.environ, GOFLAGS='-mod=mod', GOPROXY='off', GOSUMDB='off', GOTOOLCHAIN='local')
-EXTRA = {'C07_m2': ['C09'], 'C05_m2': ['C07']}
+EXTRA = {'C07_m2': ['C09'], 'C05_m2': ['C07'], 'C02_r2m3': ['C09'], 'C04_r2m2': ['C05']}
 
 
 def sh(cmd, cwd=ROOT, timeout=3600):
@@ -14,16 +15,16 @@ def sh(cmd, cwd=ROOT, timeout=3600):
 
 def main():
     want = sys.argv[1:]
-    rc, out = sh('git -C /repo status --porcelain')
+    rc, out = sh('git -C ' + REPO + ' status --porcelain')
     if out.strip():
-        print('/repo is not clean'); return 2
+        print(REPO + ' is not clean'); return 2
     rows = []
     for d in sorted(glob.glob(os.path.join(ROOT, 'seeded', '*'))):
         name = os.path.basename(d)
         if want and not any(name.startswith(w) for w in want):
             continue
         prop = name.split('_')[0]
-        rc, out = sh('git -C /repo apply %s' % os.path.join(d, 'patch.diff'))
+        rc, out = sh(('git -C ' + REPO + ' apply %s') % os.path.join(d, 'patch.diff'))
         if rc != 0:
             rows.append((name, 'patch-does-not-apply')); continue
         try:
@@ -33,7 +34,7 @@ def main():
                 v = [l for l in out.splitlines() if l.startswith('VIOLATION')]
                 res[cid] = 'exit=%d violations=%d%s' % (rc, len(v), ' (no-failing-input-found only)' if v and all('no-failing-input-found' in l for l in v) else '')
         finally:
-            sh('git -C /repo checkout -- .')
+            sh('git -C ' + REPO + ' checkout -- .')
         rows.append((name, res))
         print(name, res, flush=True)
     missed = [n for n, r in rows if isinstance(r, dict) and not any(x.startswith('exit=1') for x in r.values())]
